@@ -20,5 +20,10 @@ static inline bool z_inrange(i128 v){ return v > -ZLIM && v < ZLIM; }
 i128 ZM_mul(i128 a, i128 b);
 i128 ZM_div(i128 a, i128 b);
 i128 ZM_rem(i128 a, i128 b);
+/* the same mathematical functions as side-effect-free terms (no range obligation, no axiom assumed): for use in
+ * lemma instances and postconditions; ZM_x(a,b) == ZM_x_pure(a,b) for all arguments */
+i128 ZM_mul_pure(i128 a, i128 b);
+i128 ZM_div_pure(i128 a, i128 b);
+i128 ZM_rem_pure(i128 a, i128 b);
 #endif
 #endif
